@@ -25,9 +25,9 @@ static LD const TINY = 2.2250738585072014e-308L;
 #define VP_K 16
 #endif
 
-enum { L_ASINH, L_ACOSH, L_ATANH, L_EXPM1, L_LOG1P, L_ATAN2, L_ATAN2_AXIS, L_NORM, L_NORM_EXTREME, L_COORD, L_REDUCE, L_REDUCE_STRIDED, L_SHIFT, L_SHIFT_LEN0, L_TINY_ARG, L_HUGE_ARG, L_NEAR_SWITCH, L_NORM_SUBNORMAL, L_NORM_LONG };
+enum { L_ASINH, L_ACOSH, L_ATANH, L_EXPM1, L_LOG1P, L_ATAN2, L_ATAN2_AXIS, L_NORM, L_NORM_EXTREME, L_COORD, L_REDUCE, L_REDUCE_STRIDED, L_SHIFT, L_SHIFT_LEN0, L_TINY_ARG, L_HUGE_ARG, L_NEAR_SWITCH, L_NORM_SUBNORMAL, L_NORM_LONG, L_NORM_SQRT_RANGE };
 static char const *const labels[] = {"asinh", "acosh", "atanh", "expm1", "log1p", "atan2", "atan2_exact_axis", "norms", "norm_components_mix_huge_tiny", "coordinate_conversions",
-                                     "reductions", "strided_reductions", "shift_helpers", "shift_helper_length_0", "argument_lt_1e-3", "argument_gt_1e3", "argument_near_formula_switch", "norm_subnormal_components", "norm_of_1000_to_300001_components", nullptr};
+                                     "reductions", "strided_reductions", "shift_helpers", "shift_helper_length_0", "argument_lt_1e-3", "argument_gt_1e3", "argument_near_formula_switch", "norm_subnormal_components", "norm_of_1000_to_300001_components", "norm_components_in_one_binade_at_the_root_of_the_range_limits", nullptr};
 static char const *const metrics[] = {"asinh_err_u", "acosh_err_u", "atanh_err_u", "expm1_err_u", "log1p_err_u", "atan2_err_u", "norm_err_u", "coord_err_u", nullptr};
 static uint8_t const dict[] = {0, 1, 2, 3, 4, 5, 6, 7};
 static vp_info const info = {"C11", VP_CFG, "", labels, metrics, 200, dict, sizeof(dict)};
@@ -198,13 +198,24 @@ static void case_norm(Tape &t, Ctx &cx)
 {
     unsigned n = 1 + t.u8() % 40;
     unsigned stride = 1 + t.u8() % 4;
-    uint8_t mode = t.u8() % 5;
+    uint8_t modeb = t.u8();
+    uint8_t mode = modeb % 5;
+    // values 250..255 of the same byte: all components share one binade at / next to the square root of the largest or smallest
+    // normal number - where each square is still representable but their sum may not be (and the other way round)
+    int e_common = 0;
+    if (modeb >= 250)
+    {
+        int const emax_t = A_SIZE_REAL == 4 ? 128 : 1024, emin_t = A_SIZE_REAL == 4 ? -125 : -1021;
+        mode = 5;
+        e_common = (modeb & 1 ? emax_t / 2 : emin_t / 2) + int((modeb - 250) / 2) - 2; // -2, -1, 0 around the root
+    }
     std::vector<a_real> v(n);
     bool extreme = false;
     for (auto &x : v)
     {
         switch (mode)
         {
+        case 5: x = mk(t, e_common, e_common); extreme = true; cx.label(L_NORM_SQRT_RANGE); break;
         case 0: x = mk(t, -10, 10); break;
         case 1: x = mk(t, EMAX - 30, EMAX); extreme = true; break;              // squares would overflow
         case 2: x = mk(t, EMIN, EMIN + 30); extreme = true; break;              // squares would underflow
